@@ -7,6 +7,29 @@ use nsmc::*;
 
 const SPREAD: [i32; 12] = [-7, 0, 3, 10, 11, 12, 100, 101, 1000, 5000, 5001, 9000];
 
+/// strictly increasing value of a rank (ranks beyond the table continue above it)
+fn val(r: u8) -> i32 {
+    if (r as usize) < SPREAD.len() {
+        SPREAD[r as usize]
+    } else {
+        9000 + (r as i32) * 7
+    }
+}
+
+/// long-lane input families (ranks): increasing, decreasing, organ pipe, two-valued, all equal, sawtooth
+fn long_input(n: usize, fam: usize) -> Vec<u8> {
+    (0..n)
+        .map(|i| match fam {
+            0 => i as u8,
+            1 => (n - 1 - i) as u8,
+            2 => (if i < n / 2 { 2 * i } else { 2 * (n - 1 - i) + 1 }) as u8,
+            3 => (i % 2) as u8,
+            4 => 0u8,
+            _ => (i % 7) as u8,
+        })
+        .collect()
+}
+
 #[derive(Debug, Clone)]
 struct Single {
     pat: Vec<u8>,
@@ -32,7 +55,7 @@ impl Mode {
 
 fn single_body(c: &Single, lx: &mut Local) {
     let n = c.pat.len();
-    let vals: Vec<i32> = c.pat.iter().map(|&r| SPREAD[r as usize]).collect();
+    let vals: Vec<i32> = c.pat.iter().map(|&r| val(r)).collect();
     let mut sorted = vals.clone();
     sorted.sort();
     let want = sorted[c.i];
@@ -89,6 +112,9 @@ struct Bulk {
     mask: u32,
     variant: u8,
     mode: Mode,
+    step: isize,
+    /// explicit index list (long lanes); overrides mask/variant when non-empty
+    explicit: Vec<usize>,
 }
 
 fn index_list(n: usize, mask: u32, variant: u8) -> Vec<usize> {
@@ -113,19 +139,29 @@ fn index_list(n: usize, mask: u32, variant: u8) -> Vec<usize> {
 
 fn bulk_body(c: &Bulk, lx: &mut Local) {
     let n = c.pat.len();
-    let vals: Vec<i32> = c.pat.iter().map(|&r| SPREAD[r as usize]).collect();
+    let vals: Vec<i32> = c.pat.iter().map(|&r| val(r)).collect();
     let mut sorted = vals.clone();
     sorted.sort();
-    let idx = index_list(n, c.mask, c.variant);
+    let idx = if c.explicit.is_empty() { index_list(n, c.mask, c.variant) } else { c.explicit.clone() };
     let mut distinct = idx.clone();
     distinct.sort();
     distinct.dedup();
     lx.nontrivial(n >= 2 && distinct.len() >= 1 && c.pat.iter().any(|&r| r != c.pat[0]));
     lx.explore(&c.mode.pm(), |lx| {
-        let mut a = Array1::from(vals.clone());
         let ix = Array1::from(idx.clone());
-        let r = guarded(|| a.get_many_from_sorted_mut(&ix));
-        let after = a.to_vec();
+        let (r, after) = if c.step == 1 {
+            let mut a = Array1::from(vals.clone());
+            let r = guarded(|| a.get_many_from_sorted_mut(&ix));
+            (r, a.to_vec())
+        } else {
+            let mut h = Host1::new(&vals, c.step, 1, -99);
+            let before = h.memory();
+            let r = guarded(|| h.view_mut().get_many_from_sorted_mut(&ix));
+            if let Err(k) = nsmc::layouts::guards_intact(&before, &h.memory(), &h.view_offsets(), |x, y| x == y) {
+                lx.fail("C02/guard-cell-modified", || format!("parent cell {} outside the stepped view changed (bulk)", k));
+            }
+            (r, h.logical())
+        };
         let obs = match &r {
             Err(msg) => {
                 lx.fail("C02/bulk-in-range-panic", || format!("get_many_from_sorted_mut({:?}) on {:?} panicked: {}", idx, vals, msg));
@@ -181,12 +217,19 @@ fn main() {
         (0u32..(1 << n)).flat_map(move |mask| {
             let pat = pat.clone();
             let variants: Vec<u8> = if mask.count_ones() >= 2 { vec![0, 1, 2] } else { vec![0, 2] };
-            variants.into_iter().map(move |v| Bulk { pat: pat.clone(), mask, variant: v, mode: Mode::AllPivots })
+            variants.into_iter().flat_map({
+                let pat = pat.clone();
+                move |v| {
+                    let steps: Vec<isize> = if n <= 5 { vec![1, -1, 2] } else { vec![1] };
+                    let pat = pat.clone();
+                    steps.into_iter().map(move |st| Bulk { pat: pat.clone(), mask, variant: v, mode: Mode::AllPivots, step: st, explicit: vec![] })
+                }
+            })
         })
     });
     rep.run_sub(
         "bulk-all-pivots",
-        &format!("all weak-order patterns of length 1..={} x every subset of indexes (incl. empty), presented sorted / reversed / unordered with repeats x ALL pivot sequences", n_bulk),
+        &format!("all weak-order patterns of length 1..={} x every subset of indexes (incl. empty), presented sorted / reversed / unordered with repeats x ALL pivot sequences; lengths <= 5 also on reversed (-1) and stepped (2) views", n_bulk),
         cases,
         bulk_body,
     );
@@ -243,7 +286,7 @@ fn main() {
                         }
                     }
                     let pat = pat.clone();
-                    Policy::ALL.iter().map(move |&p| Bulk { pat: pat.clone(), mask, variant: 2, mode: Mode::Bounded(p, bdev) }).collect::<Vec<_>>()
+                    Policy::ALL.iter().map(move |&p| Bulk { pat: pat.clone(), mask, variant: 2, mode: Mode::Bounded(p, bdev), step: 1, explicit: vec![] }).collect::<Vec<_>>()
                 }
             })
         })
@@ -251,6 +294,48 @@ fn main() {
     rep.run_sub(
         "bulk-deviation-bounded",
         &format!("all sequences over 3 keys of length {:?} x every non-empty subset of the probe indexes {{0, n/3, n/2, n-1}} (unordered with repeats) x 3 policies x <= {} deviations", bl, bdev),
+        cases,
+        bulk_body,
+    );
+    // 4. long lanes under adversarial pivot policies: recursion depth ~ n (worst case of quickselect),
+    //    which is where depth / round budgets, fallbacks and window bookkeeping live
+    let nlong = rep.cfg.pick(96, 250);
+    let cases = (13..=nlong).flat_map(move |n| {
+        (0..6usize).flat_map(move |fam| {
+            let pat = long_input(n, fam);
+            (0..n).flat_map({
+                let pat = pat.clone();
+                move |i| {
+                    // every index for n <= 40; a spread of indexes above (first, last, around the quartiles, every 7th)
+                    let keep = n <= 40 || i < 2 || i + 2 >= n || i % 7 == 3 || i == n / 2 || i == n / 4 || i == 3 * n / 4;
+                    let pat = pat.clone();
+                    Policy::ADVERSARIAL.iter().filter(move |_| keep).map(move |&p| Single { pat: pat.clone(), i, step: if (i + n) % 5 == 0 { -1 } else { 1 }, mode: Mode::Bounded(p, if n <= 24 { 1 } else { 0 }) }).collect::<Vec<_>>()
+                }
+            })
+        })
+    });
+    rep.run_sub(
+        "single-long-lanes-adversarial-policies",
+        &format!("every length 13..={} x 6 input families (increasing, decreasing, organ pipe, two-valued, all equal, sawtooth) x indexes (all for n<=40; ends, quartiles and every 7th above) x policies first / last / parity-alternating ends / middle, 0 deviations (<= 1 for n <= 24): executions with recursion depth up to n-1", nlong),
+        cases,
+        single_body,
+    );
+    let cases = (13..=nlong).flat_map(move |n| {
+        (0..6usize).flat_map(move |fam| {
+            let pat = long_input(n, fam);
+            let sets: Vec<Vec<usize>> = vec![vec![0], vec![n - 1], vec![n / 2], vec![n - 1, 0], vec![n / 3, n / 2, n / 2], vec![1, n - 2, n / 4, 3 * n / 4], (0..n).rev().collect(), (0..n).step_by(5).collect()];
+            sets.into_iter().enumerate().flat_map({
+                let pat = pat.clone();
+                move |(si, set)| {
+                    let pat = pat.clone();
+                    Policy::ADVERSARIAL.iter().map(move |&p| Bulk { pat: pat.clone(), mask: 0, variant: 0, mode: Mode::Bounded(p, 0), step: if (si + n) % 4 == 0 { -1 } else { 1 }, explicit: set.clone() }).collect::<Vec<_>>()
+                }
+            })
+        })
+    });
+    rep.run_sub(
+        "bulk-long-lanes-adversarial-policies",
+        &format!("every length 13..={} x 6 input families x 8 index sets (single ends, middle, sparse, with repeats, every 5th, all positions in decreasing order) x 4 adversarial policies, 0 deviations; every 4th case on a reversed view", nlong),
         cases,
         bulk_body,
     );
